@@ -67,6 +67,7 @@ structure Cfg where
   bucket : Nat
   minIonIndex : Nat
   tmt : Nat            -- 0 = none, else the plex size name (6, 10, 11, 16, 18), MS2 level
+  overrideCharge : Bool  -- `override_precursor_charge`: the annotated charge is ignored
 
 structure Spectrum where
   title : List UInt8
@@ -476,9 +477,9 @@ def rowViolation (run : Run) (r : Row) : Option String :=
     match findSpectrum run r with
     | none => some "spectrum_not_in_input"
     | some sp =>
-      let zOk := match sp.charge with
-        | some z => r.charge == z
-        | none => cfg.zLo ≤ r.charge && r.charge ≤ cfg.zHi
+      let zOk := match sp.charge, cfg.overrideCharge with
+        | some z, false => r.charge == z
+        | _, _ => cfg.zLo ≤ r.charge && r.charge ≤ cfg.zHi
       if !zOk then some "charge" else
       let mz := f32val sp.pepmz
       let wantExp := (mz - Sage.Gen.PROTON) * (r.charge : Rat)
